@@ -61,7 +61,14 @@ def _gen_case_a(seed: int, tier: str, index: int) -> Dict[str, Any]:
     hot = [rng.randrange(0, 1022) for _ in range(4)]
     for k in range(n):
         t += rng.choice([0.0, 0.002, 0.05, 0.3, 1.0, 3.0]) if not long_session else rng.choice([0.25, 0.4])
-        kind = rng.choices(["statp", "set1", "refresh", "revert"], [6, 2, 2, 0.7] if not long_session else [8, 1, 0.3, 0.1])[0]
+        kind = rng.choices(["statp", "set1", "refresh", "revert", "wcerr"], [6, 2, 2, 0.7, 0.8] if not long_session else [8, 1, 0.3, 0.1, 0.3])[0]
+        if kind == "wcerr":
+            # the spa announces a watercare problem; the client asks for the watercare mode (its consumer is suspended in that exchange);
+            # a partial update leaves the spa right behind the answer
+            val = (val + 1) % 65536
+            plan.append({"op": "wcerr", "t": round(t, 4), "recs": [[rng.choice(hot), val]], "behind": rng.choice([0.0, 0.0, 0.002, 0.05])})
+            t += rng.choice([0.0, 0.3, 2.0])
+            continue
         if kind == "revert":
             # refresh; a reported change of one word; the spa returns to the old value WITHOUT reporting it (that report is lost); refresh
             # again: the second refresh carries exactly what the first one carried and must put the old value back
@@ -107,6 +114,7 @@ async def scenario(world: WorldA) -> None:
     sysm = System(world)
     model = sysm.peer.sim
     sent_msgs: List[Any] = []
+    armed_taps: List[Dict[str, Any]] = []
 
     async def emitter(base: float):
         for op in world.case["plan"]:
@@ -134,6 +142,29 @@ async def scenario(world: WorldA) -> None:
                     model._send_structure_change = False
                 sysm.peer.kick()
                 res.probe("one_byte_change")
+            elif op["op"] == "wcerr":
+                if sysm.man.facade is None:
+                    continue
+                changes = [(pos, struct.pack(">H", v)) for pos, v in op["recs"]]
+                armed = {"on": True, "timers": 0}
+                armed_taps.append(armed)
+
+                def fire(changes=changes, armed=armed):
+                    armed["timers"] -= 1
+                    for pos, data in changes:
+                        model.structure.replace_status_block_segment(pos, data)
+                    model.emit_statp(changes)
+                    sent_msgs.append(changes)
+                    res.probe("update_right_behind_a_watercare_answer")
+
+                def tap(kind, rec, armed=armed, op=op, fire=fire):
+                    if armed["on"] and kind == "tx" and rec.verb == "WCGET" and rec.src[0] == sysm.peer.ip:
+                        armed["on"] = False
+                        armed["timers"] += 1
+                        world.loop.call_later(op["behind"], fire)
+                world.net.taps.append(tap)
+                model.emit_raw(b"WCERR")
+                res.probe("watercare_error_announced")
             elif op["op"] == "refresh":
                 spa = sysm.spa
                 protocol = getattr(spa, "_protocol", None) if spa is not None else None
@@ -199,11 +230,17 @@ async def scenario(world: WorldA) -> None:
         await asyncio.sleep(1.0)
         world.net.healed = True
         world.loop.stalls_on = False
+        # an announced watercare problem whose query is still waiting for its turn: let it be answered (bounded), then stop arming
+        t0 = world.now()
+        while any(a["on"] or a["timers"] for a in armed_taps) and world.now() - t0 < 60:
+            await asyncio.sleep(0.2)
+        for a in armed_taps:
+            a["on"] = False
         # wait for every harness refresh and for the queues to drain
         t0 = world.now()
         while world.now() - t0 < 600:
             busy = any(t.get_name().startswith("HARNESS:refresh") and not t.done() for t in asyncio.all_tasks())
-            busy = busy or world.net.in_flight() > 0 or model._socket._send_handlers
+            busy = busy or world.net.in_flight() > 0 or model._socket._send_handlers or any(a["timers"] for a in armed_taps)
             for lb, q in sysm.queues.items():
                 if q._live and not sysm.transports[lb].is_closing():
                     busy = True
@@ -356,7 +393,7 @@ ASSUMPTIONS = [
     "arrival order is the order of delivery to the client's endpoint (a duplicated datagram is a second arrival)",
     "if the connection is torn down mid-run (rare; probe 'reconnected') only prefix consistency is demanded of the abandoned one",
 ]
-PROBES = ["refresh_restores_a_value_after_an_unreported_revert", "message_with_200_or_more_records", "more_than_a_full_sequence_cycle_of_messages", "two_or_more_messages", "empty_message", "repeated_position_in_message", "duplicate_datagram_arrived",
+PROBES = ["update_right_behind_a_watercare_answer", "watercare_error_announced", "refresh_restores_a_value_after_an_unreported_revert", "message_with_200_or_more_records", "more_than_a_full_sequence_cycle_of_messages", "two_or_more_messages", "empty_message", "repeated_position_in_message", "duplicate_datagram_arrived",
           "refresh_over_partial", "message_during_handshake", "one_byte_change"]
 N_QUICK = 1200
 
